@@ -1280,3 +1280,108 @@ func init() {
 		}
 	})
 }
+
+// ---- a clamp assigns the bound it tested (C09.17) ----
+//
+// if x > B { x = B }: what is assigned in the arm is the bound of the test. x = B - 1 after x > B (an exclusive end clamped as
+// if it were inclusive) silently cuts the last index off every boundary chunk; x = B + 1 lets it through.
+func clampRule(c *Ctx, r *Result, rule string, floor int) {
+	n := 0
+	sameAddr := func(a, b ssa.Value) bool {
+		if a == b {
+			return true
+		}
+		ia, ok1 := a.(*ssa.IndexAddr)
+		ib, ok2 := b.(*ssa.IndexAddr)
+		if ok1 && ok2 {
+			return ia.X == ib.X && ia.Index == ib.Index
+		}
+		fa, ok3 := a.(*ssa.FieldAddr)
+		fbb, ok4 := b.(*ssa.FieldAddr)
+		if ok3 && ok4 {
+			return fa.X == fbb.X && fa.Field == fbb.Field
+		}
+		return false
+	}
+	for _, fn := range c.LibFuncs() {
+		if fn.Blocks == nil {
+			continue
+		}
+		var fb *FB
+		k := 0
+		for _, b := range fn.Blocks {
+			ifi, ok := b.Instrs[len(b.Instrs)-1].(*ssa.If)
+			if !ok {
+				continue
+			}
+			cmp, ok := ifi.Cond.(*ssa.BinOp)
+			if !ok {
+				continue
+			}
+			var x, bound ssa.Value
+			switch cmp.Op {
+			case token.GTR, token.GEQ:
+				x, bound = cmp.X, cmp.Y
+			case token.LSS, token.LEQ:
+				x, bound = cmp.Y, cmp.X
+			default:
+				continue
+			}
+			ld, isLd := isLoad(stripConv(x))
+			arm := b.Succs[0]
+			var assigned ssa.Value
+			var at ssa.Instruction
+			if isLd {
+				for _, in := range arm.Instrs {
+					if st, isSt := in.(*ssa.Store); isSt && sameAddr(st.Addr, ld.X) {
+						assigned, at = st.Val, st
+					}
+				}
+			}
+			if assigned == nil {
+				// phi form: join block merges x (from the test block) and the clamped value (from the arm)
+				if len(arm.Succs) == 1 && len(arm.Instrs) <= 3 {
+					join := arm.Succs[0]
+					for _, in := range join.Instrs {
+						phi, isPhi := in.(*ssa.Phi)
+						if !isPhi || len(phi.Edges) != 2 {
+							continue
+						}
+						var fromArm, fromTest ssa.Value
+						for i, p := range join.Preds {
+							if p == arm {
+								fromArm = phi.Edges[i]
+							} else if p == b {
+								fromTest = phi.Edges[i]
+							}
+						}
+						if fromArm != nil && fromTest == x {
+							assigned, at = fromArm, phi
+						}
+					}
+				}
+			}
+			if assigned == nil {
+				continue
+			}
+			if fb == nil {
+				fb = c.FB(fn)
+			}
+			d := fb.lin(assigned).add(fb.lin(bound), -1)
+			if !d.isConst() || fb.lin(bound).isConst() {
+				continue // against a constant limit the arm often substitutes a default (level > 9 -> 6)
+			}
+			n++
+			k++
+			r.Check(d.C == 0, rule, fmt.Sprintf("%s#clamp-%d", c.Name(fn), k), c.InstrPos(at), fmt.Sprintf("the value tested against %s is clamped to %s (difference %d)", fb.linString(fb.lin(bound)), fb.linString(fb.lin(assigned)), d.C))
+		}
+	}
+	if n < floor {
+		r.Shortfall(c, rule, fmt.Sprintf("%s: only %d clamps found (expected >= %d)", rule, n, floor))
+	}
+}
+
+func init() {
+	registry["C09"].Meta.Rules["C09.17"] = "a clamp assigns the bound it tested: where a branch on x > B (>=, or the mirrored forms) assigns x in its arm and the assigned value differs from B by a constant, that constant is 0 (chunkEnd = datasetDims - 1 after chunkEnd > datasetDims treats an exclusive end as inclusive: the last index of every boundary chunk reads as 0)"
+	registry["C09"].Rules = append(registry["C09"].Rules, func(c *Ctx, r *Result) { clampRule(c, r, "C09.17", 5) })
+}
